@@ -3,7 +3,7 @@
    harness under guard pages and a counting allocator, not proved; what IS proved about
    resources: the pre-allocation hint never exceeds the remaining input, and the size of
    whatever a decode returns is linear in the bytes it consumed). *)
-From PV Require Import Base MachineInt DataModel De DeFlavors WireFormat Simulation PtrSlice SizeBound.
+From PV Require Import Base MachineInt DataModel De DeFlavors WireFormat Simulation PtrSlice SizeBound PtrDecl GenPtrCode PtrInterp PtrCodeFacts.
 Open Scope N_scope.
 
 (* For every byte string and every shape, decoding through the raw-pointer slice flavour
@@ -57,6 +57,27 @@ Example C04_size_example :
   no_zero_width t = true /\ slope t = 7 /\ offset t = 1.
 Proof. repeat split; vm_compute; reflexivity. Qed.
 
+(* the pointer-level flavour of these theorems is the code: pop, try_take_n, size_hint and
+   finalize of de/flavors.rs's Slice are re-read from the source on every run as statement trees
+   over the raw pointers (comparisons, the usize differences, from_raw_parts, cursor updates)
+   and interpreted with pointers as indices (an access outside the buffer: Fault) *)
+Theorem C04_pop_is_the_source : forall s : dslice,
+  dslice_pop s = let* '(m, r) := prun de_slice_pop [] (mach_of_d s) in
+                 match r with QByte b => Ok (b, d_of m) | _ => Panic end.
+Proof. exact dslice_pop_is_source. Qed.
+Theorem C04_try_take_n_is_the_source : forall (ct : N) (s : dslice),
+  dslice_take_n ct s = let* '(m, r) := prun de_slice_try_take_n [PvN (N.to_nat ct)] (mach_of_d s) in
+                       match r with QBytes bs => Ok (bs, d_of m) | _ => Panic end.
+Proof. exact dslice_take_n_is_source. Qed.
+Theorem C04_finalize_is_the_source : forall s : dslice,
+  dslice_finalize s = let* '(_, r) := prun de_slice_finalize [] (mach_of_d s) in
+                      match r with QBytes bs => Ok bs | _ => Panic end.
+Proof. exact dslice_finalize_is_source. Qed.
+Theorem C04_size_hint_is_the_source : forall s : dslice, (ds_cursor s <= ds_end s)%nat ->
+  (let* '(_, r) := prun de_slice_size_hint [] (mach_of_d s) in match r with QSome k => Ok (Some (N.of_nat k)) | _ => Panic end)
+  = Ok (dslice_hint s).
+Proof. exact dslice_hint_is_source. Qed.
+
 Example C04_example :
   take_from_bytes_ptr (TSeq (TInt U8)) [255; 255; 255; 255; 255; 255; 255; 255; 255; 1; 1; 2]
   = Err DeserializeUnexpectedEnd /\
@@ -68,3 +89,7 @@ Print Assumptions C04_ptr_is_slice.
 Print Assumptions C04_borrowed_in_input.
 Print Assumptions C04_hint_sound.
 Print Assumptions C04_decoded_size_linear.
+Print Assumptions C04_pop_is_the_source.
+Print Assumptions C04_try_take_n_is_the_source.
+Print Assumptions C04_finalize_is_the_source.
+Print Assumptions C04_size_hint_is_the_source.
